@@ -136,8 +136,11 @@ class Check:
         with open(report_path, "w") as f:
             f.write("\n".join(lines) + "\n")
         if not self.quiet:
-            for ln in lines[:1 + len(self.analysed) + len(self.notes) + len(byrule)]:
-                print(ln)
+            try:
+                for ln in lines[:1 + len(self.analysed) + len(self.notes) + len(byrule)]:
+                    print(ln)
+            except BrokenPipeError:
+                pass
         for v, ent in known_hits:
             print("KNOWN-FINDING: property=%s %s %s :: %s (%s)" % (self.pid, v.rule, v.instance, v.detail, v.where))
         for v in new:
